@@ -4,6 +4,7 @@ import (
 	"encoding/json"
 	"fmt"
 	"strings"
+	"sync"
 
 	cc "connectrpc.com/conformance/internal/app/connectconformance"
 	"connectrpc.com/conformance/internal/verifharness/gen"
@@ -82,8 +83,20 @@ func c11Stderr(c *gen.Ctx, names []string, lines int, partial bool) string {
 }
 
 func runC11(c *gen.Ctx) error {
-	// real OS processes first (they take seconds; see oscmd.go)
-	c.DoParallel("oscmd", oscmdServerScenarios(c), 4)
+	// real OS processes (see oscmd.go) and the in-process scenarios that wait for real time (a batch
+	// that outlasts the 5 s grace period) take seconds: they run beside everything else
+	inFast, inSlow := c11InProcScenarios(c)
+	var bg sync.WaitGroup
+	bg.Add(2)
+	go func() {
+		defer bg.Done()
+		c.DoParallel("oscmd", oscmdServerScenarios(c), 4)
+	}()
+	go func() {
+		defer bg.Done()
+		c.DoParallel("inproc", inSlow, len(inSlow))
+	}()
+	defer bg.Wait()
 
 	var ins []any
 	var slow []any
@@ -280,6 +293,7 @@ func runC11(c *gen.Ctx) error {
 		}
 	}
 
+	c.DoParallel("inproc", inFast, 8)
 	c.DoParallel("batch", ins, 8)
 	if len(slow) > 0 {
 		c.DoParallel("batch", slow, len(slow))
